@@ -22,6 +22,7 @@ One clause only is decided; everything else in C11 quantifies over run-time mixi
               receiving side, deficit borrowed from the other redox states, moles_from_redox_states) is conjoined with equality of the
               two stem lengths; a bare prefix compare books `Ca` on `C(4)` and `Na` on `N(5)`; where the name compared is itself a totals key its
               stem is taken with strcspn as well (`C(-4)` must still find `C(4)`)
+  C11.kinmix    run_reactions applies the mixing recipe its caller passes (use_mix) in every branch - no kinetics, Runge-Kutta, CVODE
   C11.park      the mixruns of transport() park each cell's mixed result in scratch solution -2 and write it to its cell one iteration later; the
               write-back after the loop targets (upper bound of the loop) - 1, as a polynomial identity
   C11.maxmix    "bounded mixing": init_mix splits a time step into l_nmix mixing runs so that no cell's mixing fractions exceed the
@@ -278,6 +279,42 @@ def wholename_rule(P, R):
         R.anchor_missing(RULE, "only %d stem comparisons found in transport.cpp (4 confirmed: moles_from_redox_states, multi_D x3)" % n)
 
 
+def kinmix_rule(P, R):
+    """"With reactive solids the column inventory ... obeys the same balance": run_reactions(i, kin_time, use_mix, step_fraction) applies the
+    mixing step the transport loop asks for (use_mix: DISP, STAG, MIX_BS, NOMIX) before it integrates the kinetic reactions of the cell.
+    All its branches - no kinetics, Runge-Kutta, CVODE - must hand the caller's use_mix on for that first, non-kinetic solve; a branch
+    that substitutes another recipe gives that cell a different mixing than its neighbours assume."""
+    RULE = "C11.kinmix"
+    R.rule(RULE, "run_reactions: every branch applies the caller's mix (use_mix) in its mixing solve", minimum=3)
+    f = P.one("Phreeqc::run_reactions")
+    where = dict(file=f["file"], function=f["q"])
+    um = f["pnames"][2] if len(f["pnames"]) > 2 else "use_mix"
+    n = 0
+    for c in T.calls(f["body"]):
+        nm = T.callee_name(c)
+        if nm == "set_and_run_wrapper" and len(c[4]) == 5:
+            uk = T.strip_casts(c[4][2])
+            if uk[0] == "Lit" and str(uk[3]) in ("0", "false"):          # the mixing solve (use_kinetics FALSE)
+                n += 1
+                a = T.strip_casts(c[4][1])
+                inst = "set_and_run_wrapper@%d" % c[1]
+                if a[0] == "Ref" and a[3] == um:
+                    R.ok(RULE, inst, "use_mix handed on")
+                else:
+                    R.violation(RULE, inst, "this branch of run_reactions solves the cell with mix recipe `%s` instead of the caller's use_mix: the cell is mixed differently from what its "
+                                "neighbours assume, and the column inventory changes" % T.text(a)[:20], line=c[1], **where)
+        if nm == "rk_kinetics" and len(c[4]) >= 3:
+            n += 1
+            a = T.strip_casts(c[4][2])
+            inst = "rk_kinetics@%d" % c[1]
+            if a[0] == "Ref" and a[3] == um:
+                R.ok(RULE, inst, "use_mix handed on")
+            else:
+                R.violation(RULE, inst, "rk_kinetics is called with mix recipe `%s` instead of the caller's use_mix" % T.text(a)[:20], line=c[1], **where)
+    if n < 3:
+        R.anchor_missing(RULE, "run_reactions: only %d mixing solves found (no-kinetics, Runge-Kutta, CVODE)" % n)
+
+
 def park_rule(P, R):
     """"moved, never created or lost": in the dispersion / diffusion mixruns of transport() the mixed result of cell i is parked in the scratch
     solution -2 and written to its cell one iteration later (`Rxn_copy(store, -2, i - 1)`), so that the neighbours still mix with the old
@@ -386,6 +423,7 @@ def run(P, R, tier):
     transfer_rule(P, R)
     wholename_rule(P, R)
     park_rule(P, R)
+    kinmix_rule(P, R)
     R.undecided += ["conservation of the column inventory over shifts (mixing-factor arithmetic)", "bounded mixing / convexity",
                     "stagnant zones, multicomponent diffusion, boundary conditions, reactive solids"]
     R.rule("C11.shift", "in-place advective shift loops over the solution store walk against the copy direction (each source is read before it is overwritten)", minimum=2)
